@@ -1154,6 +1154,12 @@ func checkC12(w *World, r *Report) {
 	if m == nil {
 		return
 	}
+	// "everything else returned literally": the literal parts of a template and the operands a macro receives are
+	// the source's own objects; a builtin that writes into a value it was handed changes the template, and the
+	// next evaluation of the same template or call site builds another form
+	r.include("C12.template-", "C02.", "the maps, lists and vectors of a template (and a macro's operands) are objects of the program text itself: no builtin writes into a value it was handed, so evaluating a template twice yields the same form twice", checkC02, func(rule string) bool {
+		return rule == "C02.write"
+	})
 	r.rule("C12.unevaluated", "the argument slice handed to the macro function in the expansion loop is a projection (elements from index 1) of the call form: operands are passed unevaluated")
 	r.rule("C12.caller-scope", "the expansion replaces the form before the dispatch, in the caller's scope: macroexpand is called with the current scope, passes that scope to the macro test and to the lookup, and the scope is not changed between expansion and dispatch")
 	r.rule("C12.fixpoint", "macroexpand loops while the macro test holds on the updated form and returns that form; the macroexpand and quasiquoteexpand special forms return expansions unevaluated")
@@ -1251,16 +1257,7 @@ func checkC12(w *World, r *Report) {
 			}
 		}
 		r.check(okCond, "C12.fixpoint", m.macroexpand, "loop condition", m.macroexpand.Pos(), "the macro test applied to the updated form", "the loop does not re-test the updated form")
-		okRet := true
-		for _, rt := range m.returns(m.macroexpand) {
-			ev, _ := rt[2].(ssa.Value)
-			if ev != nil && !isNilConst(ev) {
-				continue
-			}
-			if rt[1].(ssa.Value) != ssa.Value(formPhi) {
-				okRet = false
-			}
-		}
+		okRet := expanderReturnsLoopForm(m, formPhi)
 		r.check(okRet, "C12.fixpoint", m.macroexpand, "value returned", m.macroexpand.Pos(), "the form the loop stopped at", "macroexpand returns something other than the fully expanded form")
 		// back-edge value of the form is the Apply result
 		if formPhi != nil {
@@ -3476,4 +3473,49 @@ func stepperDefaultRule(w *World, r *Report, m *evalModel, rule string) {
 		}
 	}
 	r.floor(rule, "assignments to Stepper in the module", n, 1)
+}
+
+// expanderReturnsLoopForm: every return of the macro expander that hands back a value hands back the form its
+// loop stopped at (a return that passes an error on hands back nil).
+func expanderReturnsLoopForm(m *evalModel, formPhi *ssa.Phi) bool {
+	for _, rt := range m.returns(m.macroexpand) {
+		v := rt[1].(ssa.Value)
+		if isNilConst(v) {
+			continue // an error is being reported
+		}
+		if formPhi == nil || v != ssa.Value(formPhi) {
+			return false
+		}
+	}
+	return true
+}
+
+// expansionOnlyRule: what is evaluated is the form as written or its macro expansion. The expander hands back the
+// form its loop stopped at and nothing else, and it is called on whole forms about to be evaluated only - no part
+// of the evaluator rewrites a form (an "optimisation" of nested calls by the names of their heads) or expands
+// it ahead of time.
+func expansionOnlyRule(w *World, r *Report, m *evalModel, rule string) {
+	r.rule(rule, "the macro expander returns, whenever it returns a form, the form its expansion loop stopped at - never a form put together or picked out otherwise (a rewrite by the names of the heads ignores the innermost binding of those names) - and it is called only at the top of the evaluation loop and by the macroexpand form (shared with C12.fixpoint and C12.expand-site)")
+	loops := naturalLoops(m.macroexpand)
+	if !r.check(len(loops) == 1, rule, m.macroexpand, "expansion loop", m.macroexpand.Pos(), "one loop", "macroexpand is not a loop") {
+		return
+	}
+	var formPhi *ssa.Phi
+	for _, in := range loops[0].header.Instrs {
+		if phi, ok := in.(*ssa.Phi); ok && isMalType(phi.Type()) {
+			formPhi = phi
+		}
+	}
+	r.check(expanderReturnsLoopForm(m, formPhi), rule, m.macroexpand, "value returned by the expander", m.macroexpand.Pos(), "the form the loop stopped at", "macroexpand returns a form other than the one its loop stopped at: the form evaluated is neither the form written nor its expansion")
+	n := 0
+	for _, ec := range m.evalCalls() {
+		if ec.callee != m.macroexpand {
+			continue
+		}
+		n++
+		regs := m.regionSet(ec.call.Block())
+		okSite := (ec.fn == m.EVAL && m.regionOf(ec.call.Block()) == "" && !m.defaultRegion[ec.call.Block()]) || (len(regs) == 1 && regs["macroexpand"])
+		r.check(okSite, rule, ec.fn, "call of the macro expander", ec.call.Pos(), "the top of the loop or the macroexpand form", "a form (or a part of one) is expanded ahead of its evaluation in "+w.fnName(ec.fn)+": what is evaluated later is not the form as written")
+	}
+	r.floor(rule, "calls of the macro expander", n, 2)
 }
